@@ -11,8 +11,19 @@ import numpy as np
 import scipy.linalg as sla
 
 
-def krylov_exp_prev_norm(A, v, tol, max_dim=100, hermitian=True):
-    """Returns (result, converged, iterations).  Mirrors the order of operations of the implementation."""
+def torch_expm(M):
+    """the small-matrix exponential exactly as the implementation computes it (torch.linalg.matrix_exp).  In torch 2.10
+    it carries an error of up to ~1.5e-10 for float64 / complex128 matrices whose 1-norm lies between ~3e-3 and 5e-2
+    (measured against mpmath at 50 digits; scipy.linalg.expm is accurate to 1e-16 there)."""
+    import torch
+
+    return torch.linalg.matrix_exp(torch.tensor(np.asarray(M, dtype=complex))).numpy()
+
+
+def krylov_exp_prev_norm(A, v, tol, max_dim=100, hermitian=True, expm=None):
+    """Returns (result, converged, iterations).  Mirrors the order of operations of the implementation.
+    expm: exponential used for the projected matrix (default: scipy's, accurate; `torch_expm` for a fully faithful model)."""
+    expm_ = sla.expm if expm is None else expm
     A = np.asarray(A, dtype=complex)
     v = np.asarray(v, dtype=complex)
     nrm0 = np.linalg.norm(v)
@@ -30,11 +41,11 @@ def krylov_exp_prev_norm(A, v, tol, max_dim=100, hermitian=True):
         n2 = np.linalg.norm(w)
         T[j + 1, j] = n2
         if n2 < tol:
-            expd = sla.expm(T[: j + 1, : j + 1])
+            expd = expm_(T[: j + 1, : j + 1])
             return nrm0 * sum(a * b for a, b in zip(expd[:, 0], V)), True, j + 1
         V.append(w / n2)
         T[j + 2, j + 1] = 1
-        expd = sla.expm(T[: j + 3, : j + 3])
+        expd = expm_(T[: j + 3, : j + 3])
         err1 = abs(expd[j + 1, 0])
         err2 = abs(expd[j + 2, 0] * n)
         err = err1 if err1 < err2 else err1 * err2 / (err1 - err2)
